@@ -2053,3 +2053,274 @@ fn session_protocol<const K: usize>() {
 fn c09_session_pull_protocol_3() {
     session_protocol::<3>();
 }
+
+// ===========================================================================
+// C10: the TempFile guard (publish by rename, or remove) under filesystem stubs.
+// Each filesystem operation is replaced by a stub that appends (operation, path
+// role) to a trace and succeeds or fails as the harness chose; the oracle is a
+// predicate over the trace = the on-disk effect at every crash point between
+// operations. (The surrounding write_file could not be brought in: see DESIGN §2.)
+// ===========================================================================
+const TMP_BYTES: &[u8] = b"d/f.svspart";
+const FINAL_BYTES: &[u8] = b"d/f";
+const OP_CREATE_TMP: u8 = 1;
+const OP_RENAME_TMP_TO_FINAL: u8 = 3;
+const OP_REMOVE_TMP: u8 = 4;
+const OP_TOUCH_FINAL: u8 = 6; // any create/remove/rename-from naming the destination
+const OP_OTHER: u8 = 7;
+static mut FS_TRACE: [u8; 8] = [0; 8];
+static mut FS_N: usize = 0;
+static mut FAIL_CREATE: bool = false;
+static mut FAIL_RENAME: bool = false;
+
+fn fs_log(op: u8) {
+    unsafe {
+        kani::assume(FS_N < 8);
+        FS_TRACE[FS_N] = op;
+        FS_N += 1;
+    }
+}
+fn role(p: &Path) -> u8 {
+    let b = p.as_os_str().as_encoded_bytes();
+    if bytes_eq(b, TMP_BYTES) {
+        1
+    } else if bytes_eq(b, FINAL_BYTES) {
+        2
+    } else {
+        0
+    }
+}
+fn file_create_stub<P: AsRef<Path>>(p: P) -> io::Result<std::fs::File> {
+    use std::os::fd::FromRawFd;
+    match role(p.as_ref()) {
+        1 => fs_log(OP_CREATE_TMP),
+        2 => fs_log(OP_TOUCH_FINAL),
+        _ => fs_log(OP_OTHER),
+    }
+    if unsafe { FAIL_CREATE } {
+        Err(io::Error::from(io::ErrorKind::PermissionDenied))
+    } else {
+        Ok(unsafe { std::fs::File::from_raw_fd(77) })
+    }
+}
+fn rename_stub<P: AsRef<Path>, Q: AsRef<Path>>(from: P, to: Q) -> io::Result<()> {
+    if role(from.as_ref()) == 1 && role(to.as_ref()) == 2 {
+        fs_log(OP_RENAME_TMP_TO_FINAL);
+    } else if role(from.as_ref()) == 2 || role(to.as_ref()) == 2 {
+        fs_log(OP_TOUCH_FINAL);
+    } else {
+        fs_log(OP_OTHER);
+    }
+    if unsafe { FAIL_RENAME } {
+        Err(io::Error::from(io::ErrorKind::PermissionDenied))
+    } else {
+        Ok(())
+    }
+}
+fn remove_file_stub<P: AsRef<Path>>(p: P) -> io::Result<()> {
+    match role(p.as_ref()) {
+        1 => fs_log(OP_REMOVE_TMP),
+        2 => fs_log(OP_TOUCH_FINAL),
+        _ => fs_log(OP_OTHER),
+    }
+    Ok(())
+}
+fn owned_fd_drop_stub(_fd: &mut std::os::fd::OwnedFd) {}
+
+static mut DEST_EXISTS: bool = false;
+/// `fs::metadata` (behind Path::exists / is_file / is_dir): reading is harmless, so
+/// nothing is logged; the destination either does not exist or is a regular file,
+/// as the harness chose (destination pre-existing or absent). The Metadata value is
+/// a stat buffer whose st_mode reads S_IFREG.
+fn metadata_stub<P: AsRef<Path>>(p: P) -> io::Result<std::fs::Metadata> {
+    if role(p.as_ref()) == 2 && unsafe { DEST_EXISTS } {
+        // every 32-bit word = S_IFREG (0o100000): wherever the compiler placed st_mode,
+        // file_type() reads "regular file"; no other field is consulted by is_file/exists
+        let mut raw = [0u8; std::mem::size_of::<std::fs::Metadata>()];
+        let mut k = 1;
+        while k < raw.len() {
+            raw[k] = 0x80;
+            k += 4;
+        }
+        Ok(unsafe { std::mem::transmute::<[u8; std::mem::size_of::<std::fs::Metadata>()], std::fs::Metadata>(raw) })
+    } else {
+        Err(io::Error::from(io::ErrorKind::NotFound))
+    }
+}
+
+//@ name: c10_tempfile_guard_protocol
+//@ prop: C10
+//@ tier: quick
+//@ clause: the temporary file is either published by exactly one rename(temp -> destination) or removed: dropping the guard without commit removes it, a failed rename removes it and reports the error, a successful commit leaves nothing to remove, and no operation other than the publishing rename ever names the destination path (so the destination is left exactly as it was on every failing path)
+//@ funcs: TempFile::create; TempFile::commit; TempFile::drop; TempFile::file_mut
+//@ symbolic: whether creation fails, whether the guard is committed or dropped (= the pull failed), whether the rename fails, whether the destination already exists
+//@ bounds: one guard; paths concrete ("d/f", "d/f.svspart")
+//@ oracle: predicate over the trace of filesystem operations
+//@ stubs: File::create / fs::rename / fs::remove_file -> trace + chosen outcome; fs::metadata -> destination absent or a regular file as chosen; OwnedFd::drop -> no-op (no real descriptor)
+#[kani::proof]
+#[kani::stub(std::fs::File::create, file_create_stub)]
+#[kani::stub(std::fs::rename, rename_stub)]
+#[kani::stub(std::fs::remove_file, remove_file_stub)]
+#[kani::stub(std::fs::metadata, metadata_stub)]
+#[kani::stub(<std::os::fd::OwnedFd as std::ops::Drop>::drop, owned_fd_drop_stub)]
+#[kani::unwind(70)]
+fn c10_tempfile_guard_protocol() {
+    unsafe {
+        FAIL_CREATE = kani::any();
+        FAIL_RENAME = kani::any();
+        DEST_EXISTS = kani::any(); // destination pre-existing or absent
+    }
+    let commit: bool = kani::any();
+    let tmp = Path::new("d/f.svspart");
+    let fin = Path::new("d/f");
+    let created = TempFile::create(tmp);
+    let (fc, fr) = unsafe { (FAIL_CREATE, FAIL_RENAME) };
+    let mut committed_ok = false;
+    match created {
+        Err(e) => {
+            assert!(fc);
+            std::mem::forget(e);
+        }
+        Ok(mut guard) => {
+            assert!(!fc);
+            let _f = guard.file_mut();
+            if commit {
+                let r = guard.commit(fin);
+                committed_ok = r.is_ok();
+                assert!(committed_ok == !fr, "commit result does not reflect the rename");
+                std::mem::forget(r);
+            } else {
+                drop(guard);
+            }
+        }
+    }
+    let n = unsafe { FS_N };
+    let mut renames = 0usize;
+    let mut removes = 0usize;
+    let mut removes_after_rename = 0usize;
+    let mut i = 0;
+    while i < n {
+        let op = unsafe { FS_TRACE[i] };
+        assert!(op != OP_TOUCH_FINAL, "an operation other than the publishing rename named the destination path");
+        assert!(op != OP_OTHER, "an operation on an unexpected path");
+        if op == OP_RENAME_TMP_TO_FINAL {
+            renames += 1;
+        }
+        if op == OP_REMOVE_TMP {
+            removes += 1;
+            if renames > 0 {
+                removes_after_rename += 1;
+            }
+        }
+        i += 1;
+    }
+    assert!(renames == (!fc && commit) as usize, "publish attempted without commit, or not attempted on commit");
+    if committed_ok {
+        assert!(removes == 0, "the published file's temp name was removed after a successful rename");
+    } else if !fc {
+        assert!(removes == 1, "an uncommitted or failed guard left its temporary file behind (or removed it twice)");
+        let _ = removes_after_rename;
+    } else {
+        assert!(removes == 0 && renames == 0);
+    }
+    kani::cover!(committed_ok);
+    kani::cover!(!fc && commit && fr);
+    kani::cover!(!fc && !commit);
+}
+
+
+// ---- produce(): always ends with exactly one End or Fail ---------------------------
+fn io_error_display_stub(_e: &io::Error, _f: &mut std::fmt::Formatter<'_>) -> std::fmt::Result {
+    Ok(())
+}
+
+/// The real producer engine run to completion over the FIFO, then pulled to the end.
+/// N payload bytes, chunk size CB, written as W1 + rest; FAIL: the body writer
+/// returns an error after its W1-byte first write (producer failure mid-stream; those
+/// instances did not finish under CBMC - dropping the io::Error inside produce() drags
+/// in its pointer-tagged representation - and are not instantiated; failure semantics
+/// are decided at the Session level by c09_session_pull_protocol_3).
+fn produce_then_pull<const N: usize, const CB: usize, const W1: usize, const FAIL: bool>() {
+    let payload: [u8; N] = kani::any();
+    let (tx, rx) = sync_channel::<Msg>(1);
+    let opts = StreamOpts { chunk_bytes: CB, compression: Compression::None, zstd_level: 3, session_depth: 1 };
+    let body: BodyWriter = Box::new(move |w: &mut dyn Write| {
+        w.write_all(&payload[..W1])?;
+        if FAIL {
+            return Err(io::Error::from(io::ErrorKind::Other));
+        }
+        if W1 < N {
+            w.write_all(&payload[W1..])?;
+        }
+        Ok(())
+    });
+    produce(body, tx, opts);
+
+    let mut s = Session { rx, lookahead: None, done: false };
+    let mut got = [0u8; 8];
+    let mut n = 0usize;
+    let mut lasts = 0usize;
+    let mut errored = false;
+    let mut pulls = 0usize;
+    while pulls < 8 && lasts == 0 && !errored {
+        let r = s.pull();
+        match &r {
+            Ok((chunk, last)) => {
+                let mut i = 0;
+                while i < chunk.len() {
+                    got[n] = chunk[i];
+                    n += 1;
+                    i += 1;
+                }
+                if *last {
+                    lasts += 1;
+                }
+            }
+            Err(_) => errored = true,
+        }
+        std::mem::forget(r);
+        pulls += 1;
+    }
+    if FAIL {
+        assert!(errored && lasts == 0, "a failed production surfaced as an end marker");
+        // what was delivered before the failure is a prefix of what was written
+        assert!(n <= W1, "bytes delivered that the failed producer never flushed");
+    } else {
+        assert!(!errored && lasts == 1, "a clean production did not end with exactly one final chunk");
+        assert!(n == N, "pulled byte count differs from the produced byte count");
+    }
+    let mut k = 0;
+    while k < n {
+        assert!(got[k] == payload[k], "pulled bytes differ from the produced bytes");
+        k += 1;
+    }
+    std::mem::forget(s);
+}
+
+macro_rules! c09_produce {
+    ($name:ident, $n:expr, $cb:expr, $w1:expr, $fail:expr) => {
+        #[kani::proof]
+        #[kani::stub(std::sync::mpsc::SyncSender::send, send_stub)]
+        #[kani::stub(std::sync::mpsc::Receiver::recv, recv_stub)]
+        #[kani::stub(<std::io::Error as std::fmt::Display>::fmt, io_error_display_stub)]
+        #[kani::stub(std::fmt::format, crate::verif_common::format_stub)]
+        #[kani::unwind(10)]
+        fn $name() {
+            produce_then_pull::<$n, $cb, $w1, $fail>();
+        }
+    };
+}
+
+//@ name: c09_produce_n4_cb2_w3_ok
+//@ prop: C09
+//@ tier: quick
+//@ clause: the producer engine ends a clean production with exactly one End: pulled bytes equal the produced bytes with exactly one final chunk
+//@ funcs: value_stream::produce (Compression::None arm); ChunkSink::new; ChunkSink::write; ChunkSink::flush_remaining; Session::pull; Session::recv
+//@ symbolic: all payload bytes
+//@ bounds: payload 4 bytes, chunk size 2, body writer writes 3 byte(s) then the rest (per-instance constants); uncompressed; channel = FIFO contract, producer run to completion first; unwind 10
+//@ oracle: statement clauses; byte-for-byte comparison with the payload
+//@ stubs: mpsc::SyncSender::send / Receiver::recv -> in-memory FIFO; <io::Error as Display>::fmt -> writes nothing (the failure text is not the subject); alloc::fmt::format -> stub
+c09_produce!(c09_produce_n4_cb2_w3_ok, 4, 2, 3, false);
+
+
+
